@@ -39,7 +39,7 @@ def main():
         "hooks": {
             "guard": "HWLOC_VERIF",
             "enable": "tools/build.sh compiles /repo/hwloc/*.c from the current working tree with -DHWLOC_VERIF (and ASan+UBSan) into a scratch static archive; nothing is built inside /repo",
-            "baseline_off_cmd": "cd /repo && make -j8 >/dev/null && make -k check -j8",
+            "baseline_off_cmd": "cd /repo && export PATH=$PATH:/root/miniconda/bin && make -j8 >/dev/null && make -k check -j8",
             "source_commits": [],
             "add_only": True,
         },
